@@ -252,10 +252,13 @@ func (r *Runner) runOne(w work, body func(x *Exec, own bool)) {
 	}
 }
 
-// Replay runs body once with a fixed choice sequence (no exploration).
+// Replay returns an Exec that follows a fixed choice sequence (defaults after its end); if
+// body is non-nil it is run once with it. No exploration, no pruning.
 func Replay(choices []int, body func(x *Exec, own bool)) *Exec {
 	r := &Runner{cfg: Config{MaxCost: 1 << 30, Shards: 1}}
 	x := &Exec{r: r, prefix: choices}
-	body(x, true)
+	if body != nil {
+		body(x, true)
+	}
 	return x
 }
